@@ -50,6 +50,19 @@ Fixpoint exact_params (ps : list (option (option cls) * bool)) (l : list ann) : 
   | _, _ => false
   end.
 
+(* a declared class that cannot stand for the expected one: parameters are compared by class in either direction
+   (a parameter declared `str` never takes the `int` the Callable promises, whatever the variance reading), results
+   covariantly (a function declared to return c returns a d only if c is a subclass of d) *)
+Definition param_clash (a : option (option cls)) (e : ann) : bool :=
+  match a, e with Some (Some c), ACls d => negb (subclass c d) && negb (subclass d c) | _, _ => false end.
+Definition ret_clash (a : option (option cls)) (e : ann) : bool :=
+  match a, e with Some (Some c), ACls d => negb (subclass c d) | _, _ => false end.
+Fixpoint params_clash (ps : list (option (option cls) * bool)) (l : list ann) : bool :=
+  match ps, l with
+  | p :: ps', a :: l' => param_clash (fst p) a || params_clash ps' l'
+  | _, _ => false
+  end.
+
 Definition conforms_callable (ps : option (list ann)) (r : ann) (v : value) : verdict :=
   match v with
   | VFun s =>
@@ -57,8 +70,9 @@ Definition conforms_callable (ps : option (list ann)) (r : ann) (v : value) : ve
       match ps with
       | Some l =>
           if negb (Nat.eqb (List.length l) (List.length (filter (fun p => negb (snd p)) (fs_params s)))) then MustNot
+          else if params_clash (fs_params s) l || ret_clash (fs_ret s) r then MustNot
           else if exact_params (fs_params s) l && exact_ann (fs_ret s) r then Must else Unspec
-      | None => if exact_ann (fs_ret s) r then Must else Unspec
+      | None => if ret_clash (fs_ret s) r then MustNot else if exact_ann (fs_ret s) r then Must else Unspec
       end
   | VLambda | VBuiltinFn | VClass _ => Unspec
   | _ => MustNot
